@@ -58,6 +58,8 @@ pub struct Chain {
 	pub layers: Vec<LayerSpec>,
 	pub remove_after: Option<usize>,
 	pub names: usize,
+	/// the whole chain (with its removed keys) is the *right* operand of `+` onto a one-layer base that defines every name
+	pub under: bool,
 }
 
 fn value(flavour: u8, layer: usize, name: &str) -> Ex {
@@ -147,6 +149,10 @@ pub fn chain_ex(c: &Chain) -> Ex {
 	let mut e = cur.unwrap_or(Ex::Obj(vec![]));
 	if let Some(r) = c.remove_after {
 		e = std_call("objectRemoveKey", vec![e, s(NAMES[r % c.names])]);
+	}
+	if c.under {
+		let base = Ex::Obj((0..c.names).map(|i| Member::Field { name: FieldName::Id(NAMES[i].to_owned()), plus: false, vis: Vis::Normal, params: None, value: s(&format!("U-{}", NAMES[i])) }).collect());
+		e = Ex::Bin(BinOp::Add, bx(base), bx(e));
 	}
 	e
 }
@@ -297,6 +303,12 @@ pub fn check(run: &Run, chain: &Chain) -> CaseOut {
 	if chain.remove_after.is_some() {
 		classes.push("removeKey:outer".into());
 	}
+	if chain.under {
+		classes.push("chain-as-right-operand".into());
+		if chain.remove_after.is_some() || chain.layers.iter().any(|l| l.remove_before.is_some()) {
+			classes.push("removeKey:in-right-operand".into());
+		}
+	}
 	classes.sort();
 	classes.dedup();
 	let multi = (0..chain.names).any(|n| chain.layers.iter().filter(|l| l.kinds.get(n).is_some_and(|k| *k != Kind::Absent)).count() >= 2);
@@ -364,7 +376,8 @@ pub fn gen_chain(src: &mut Src) -> Chain {
 	let n = 3 + src.below(4);
 	let kinds = all_kinds();
 	let layers = (0..n).map(|i| gen_layer(src, names, i == 0, &kinds)).collect();
-	Chain { layers, remove_after: if src.chance(1, 6) { Some(src.below(names)) } else { None }, names }
+	let remove_after = if src.chance(1, 6) { Some(src.below(names)) } else { None };
+	Chain { layers, remove_after, names, under: src.chance(1, 3) }
 }
 
 /// exhaustive: 2 layers x 2 names x all kinds (+ flavour 0, no asserts), with an optional removed key
@@ -391,6 +404,7 @@ fn enum_chain(mut i: u64) -> Chain {
 			_ => None,
 		},
 		names: 2,
+		under: false,
 	}
 }
 fn enum_count() -> u64 {
@@ -407,6 +421,7 @@ pub fn run(run: &Run) {
 			layers: vec![LayerSpec { kinds: vec![Kind::Plain(Vis::Normal), Kind::ErrorField], assertion: 0, flavour: 0, sugar: false, remove_before: None }],
 			remove_after: None,
 			names: 2,
+			under: false,
 		};
 		let _ = k;
 		check(run, &chain)
@@ -428,6 +443,7 @@ pub fn run(run: &Run) {
 	}
 	run.require_class("removeKey:between", 100);
 	run.require_class("removeKey:outer", 100);
+	run.require_class("removeKey:in-right-operand", 50);
 	run.require_class("assert:failing", 50);
 }
 
